@@ -190,9 +190,11 @@ def classify(src):
         pass
     except RecursionError:
         return ("syntax", "RecursionError")
-    neutral_only = True
     why = None
     for n in ast.walk(tree):
+        # extended slicing x[a:b, c]: a Slice that is not the direct index of a Subscript
+        if isinstance(n, (ast.Tuple, ast.List)) and any(isinstance(e, ast.Slice) for e in n.elts):
+            why = why or "extslice"
         if isinstance(n, (ast.Expression, ast.Load, ast.BoolOp, ast.UnaryOp, ast.BinOp, ast.Compare, ast.Subscript, ast.Slice, ast.And, ast.Or)):
             continue
         if isinstance(n, tuple(_AST_BIN) + tuple(_AST_UN) + tuple(_AST_CMP)):
@@ -233,7 +235,7 @@ MAX_LEN = 4096
 
 
 def _isint(v):
-    return isinstance(v, int) or (hasattr(v, "dtype") and getattr(v.dtype, "kind", "") in "iub")
+    return isinstance(v, int) or (hasattr(v, "dtype") and getattr(v, "ndim", 1) == 0 and getattr(v.dtype, "kind", "") in "iub")
 
 
 def _size_guard(v):
@@ -445,10 +447,16 @@ def compositions(k, m):
 
 
 class Enumerator:
-    def __init__(self, alphabet, binops=BINOPS, cmpops=CMPOPS):
+    """T(d, k): every tree of depth <= d with exactly k leaf occurrences over `alphabet` and the
+    given operator sets.  `reduced=True` drops productions that only duplicate another one's
+    evaluation path (list displays, unary +, slice patterns lo:hi / lo::step / :hi:step)."""
+
+    def __init__(self, alphabet, binops=BINOPS, cmpops=CMPOPS, unops=UNOPS, reduced=False):
         self.alphabet = list(alphabet)
         self.binops = list(binops)
         self.cmpops = list(cmpops)
+        self.unops = list(unops)
+        self.reduced = reduced
         self.memo = {}
 
     def trees(self, d, k):
@@ -461,16 +469,18 @@ class Enumerator:
     def iter_trees(self, d, k):
         """every tree of depth <= d with exactly k leaves, each exactly once, in a fixed order
         (children lists are materialised, the top level is lazy)"""
+        red = self.reduced
         if k == 1:
             yield from self.alphabet
         if d < 1:
             return
         sub = lambda kk: self.trees(d - 1, kk)
         for c in sub(k):
-            for op in UNOPS:
+            for op in self.unops:
                 yield ("un", op, c)
             yield ("tuple", (c,))
-            yield ("list", (c,))
+            if not red:
+                yield ("list", (c,))
             yield ("slice", c, None, None, None)
         for k1, k2 in compositions(k, 2):
             for a in sub(k1):
@@ -482,7 +492,8 @@ class Enumerator:
                     for op in self.cmpops:
                         yield ("cmp", (op,), (a, b))
                     yield ("tuple", (a, b))
-                    yield ("list", (a, b))
+                    if not red:
+                        yield ("list", (a, b))
                     yield ("sub", a, b)
                     yield ("slice", a, b, None, None)
                     yield ("slice", a, None, b, None)
@@ -498,10 +509,11 @@ class Enumerator:
                                 for o2 in self.cmpops:
                                     yield ("cmp", (o1, o2), (a, b, c))
                             yield ("tuple", (a, b, c))
-                            yield ("list", (a, b, c))
-                            yield ("slice", a, b, c, None)
-                            yield ("slice", a, b, None, c)
-                            yield ("slice", a, None, b, c)
+                            if not red:
+                                yield ("list", (a, b, c))
+                                yield ("slice", a, b, c, None)
+                                yield ("slice", a, b, None, c)
+                                yield ("slice", a, None, b, c)
         if k >= 4:
             for comp in compositions(k, 4):
                 for a in sub(comp[0]):
